@@ -7,6 +7,7 @@ package vkit
 
 import (
 	"crypto/sha256"
+	"encoding/binary"
 	"encoding/json"
 	"fmt"
 	"os"
@@ -138,6 +139,17 @@ func (r *Report) Mine(i int) bool {
 		return true
 	}
 	return i%r.Shards == r.Shard
+}
+
+// MineKey assigns a case to a shard by a stable hash of its description instead of its running number:
+// for enumerations whose length differs from process to process (e.g. one case per byte of a
+// randomised signature), so that every description is handled by exactly one shard.
+func (r *Report) MineKey(key string) bool {
+	if r.Shards <= 1 {
+		return true
+	}
+	h := sha256.Sum256([]byte(key))
+	return int(binary.BigEndian.Uint32(h[:4])%uint32(r.Shards)) == r.Shard
 }
 
 // Next returns a fresh case index and whether it belongs to this shard.
